@@ -429,6 +429,12 @@ func (rm *room) viaReused(ev gmsl.PDU, contents []gmsl.PDU, want bool, desc stri
 		ru.checker.Update(ru.prov)
 	}
 	ru.n++
+	if !gmsl.VerifInternals {
+		// the stand-in checker is a fresh one per call: this comparison says
+		// nothing on this tree (the reused checker inside the library's own
+		// resolver is still exercised by the C10 / C11 oracles)
+		rm.r.Probe("degraded_reused_checker_unavailable")
+	}
 	got := verdict(ru.checker.Allowed(ev))
 	if got != want {
 		rm.r.Violate("C09", "history", "reused_checker", "a checker reused across %d events says allowed=%v, a fresh checker on the same auth events says %v, for %s", ru.n, got, want, desc)
